@@ -1,6 +1,7 @@
 import SphericalVerif.Props.C02
 import SphericalVerif.Props.HKernel
 import SphericalVerif.Props.Routes
+import SphericalVerif.Props.Finite
 #print axioms C02.sYlm_low_exact_zero
 #print axioms C02.sYlm_reads_in_narrow_wedge
 #print axioms HKernel.runH_pure
@@ -18,3 +19,16 @@ import SphericalVerif.Props.Routes
 #print axioms Routes.eps_mul_eps_neg
 #print axioms Routes.D_conj_symm'
 #print axioms Routes.D_conj_symm
+#print axioms Finite.valW_checked_eq_real
+#print axioms Finite.valW_defined
+#print axioms Finite.valW_col0_defined
+#print axioms Finite.valV_checked_eq_real
+#print axioms Finite.valV_defined
+#print axioms Finite.runH_checked_eq_real
+#print axioms Finite.runH_defined
+#print axioms Finite.runH_ne_none
+#print axioms Finite.runH_checked_eq_runH_real
+#print axioms Finite.tables_read_defined
+#print axioms Finite.eq_none_of
+#print axioms Finite.tables_faulty_entries
+#print axioms Finite.valW_fault_outside_wedge
